@@ -644,32 +644,52 @@ def replay_rule(rep: Report, prog: Program) -> None:
     RULE = "C04-REPLAY"
     rep.rule(RULE, "the inbound SRTP policy's replay window covers the outbound policy's window and the retransmission history", min_instances=2)
     fi = prog.func("rtcdtlstransport.RTCDtlsTransport._setup_srtp")
-    sessions: Dict[str, ast.AST] = {}
+    def _is_session(c: ast.AST) -> bool:
+        return isinstance(c, ast.Call) and unparse(c.func).split(".")[-1] == "Session" and bool(c.args)
+
+    def _creation(value: ast.AST):
+        """(function in which the policy is configured, policy expression) for the value stored as a session: Session(policy), or a helper that returns Session(policy)"""
+        if _is_session(value):
+            return fi, value.args[0]
+        if isinstance(value, ast.Call):
+            name_ = unparse(value.func)
+            helper = prog.find_method(fi.cls, name_.split(".", 1)[1]) if name_.startswith("self.") else prog.functions.get(f"{fi.module.name}.{name_}")
+            if helper is not None:
+                rets = [n.value for n in walk_no_nested(helper.node) if isinstance(n, ast.Return) and n.value is not None]
+                if len(rets) == 1 and _is_session(rets[0]):
+                    return helper, rets[0].args[0]
+                if len(rets) == 1 and isinstance(rets[0], ast.Name):
+                    for n in walk_no_nested(helper.node):
+                        if isinstance(n, ast.Assign) and unparse(n.targets[0]) == rets[0].id and _is_session(n.value):
+                            return helper, n.value.args[0]
+        return None
+    sessions: Dict[str, Any] = {}
     for n in walk_no_nested(fi.node):
-        if isinstance(n, ast.Assign) and isinstance(n.value, ast.Call) and unparse(n.value.func).split(".")[-1] == "Session" and n.value.args:
-            tgt = unparse(n.targets[0])
-            if tgt in ("self._rx_srtp", "self._tx_srtp"):
-                sessions[tgt] = n.value.args[0]
+        if isinstance(n, ast.Assign) and unparse(n.targets[0]) in ("self._rx_srtp", "self._tx_srtp"):
+            made = _creation(n.value)
+            if made is not None:
+                sessions[unparse(n.targets[0])] = made
     if set(sessions) != {"self._rx_srtp", "self._tx_srtp"}:
         raise AnalysisError(f"{RULE}: the creation of the inbound / outbound SRTP sessions was not found in _setup_srtp")
     DEFAULT = 128           # libsrtp: window_size 0 means the default of 128 packets
 
-    def window(arg: ast.AST) -> Tuple[int, Optional[ast.AST]]:
+    def window(made) -> Tuple[int, Optional[ast.AST]]:
         """window_size the policy handed to Session() carries: constructor keyword or attribute assignments on the policy variable (last one wins)"""
+        scope, arg = made
         val, where = DEFAULT, None
         ctor = arg
         var = unparse(arg) if isinstance(arg, ast.Name) else None
-        for n in walk_no_nested(fi.node):
+        for n in walk_no_nested(scope.node):
             if var and isinstance(n, ast.Assign) and unparse(n.targets[0]) == var and isinstance(n.value, ast.Call):
                 ctor = n.value
         if isinstance(ctor, ast.Call):
             for k in ctor.keywords:
                 if k.arg == "window_size":
-                    val, where = Evaluator(prog, fi.module, None, {}).ev(k.value), k.value
+                    val, where = Evaluator(prog, scope.module, None, {}).ev(k.value), k.value
         if var:
-            for n in walk_no_nested(fi.node):
+            for n in walk_no_nested(scope.node):
                 if isinstance(n, ast.Assign) and unparse(n.targets[0]) == f"{var}.window_size":
-                    val, where = Evaluator(prog, fi.module, None, {}).ev(n.value), n
+                    val, where = Evaluator(prog, scope.module, None, {}).ev(n.value), n
         return (val or DEFAULT), where
     try:
         rx, rx_at = window(sessions["self._rx_srtp"])
@@ -681,5 +701,5 @@ def replay_rule(rep: Report, prog: Program) -> None:
         if rx >= need:
             rep.ok(RULE, f"inbound window {rx} >= {need}", sample=why)
         else:
-            rep.fail(mk_finding(prog, PROP, RULE, fi, rx_at or sessions["self._rx_srtp"], f"the inbound SRTP session accepts packets at most {rx} behind the newest one, but {why} is {need}: an authentic packet "
+            rep.fail(mk_finding(prog, PROP, RULE, sessions["self._rx_srtp"][0], rx_at or sessions["self._rx_srtp"][1], f"the inbound SRTP session accepts packets at most {rx} behind the newest one, but {why} is {need}: an authentic packet "
                                 f"that arrives later than that is dropped as a replay", construct=f"inbound replay window below {'the outbound window' if need == tx else 'the retransmission history'}"))
